@@ -66,6 +66,12 @@ def declared_globals(fnode):
 def fine_may_raise(s, kind):
     """Can this CFG node raise?  (calls, operators that dispatch, subscripts, raise)"""
     part = own_stmt_part(s, kind)
+    # NAME.append((a, b, ..)) with plain names / constants as components: storing a tuple in a list does not dispatch to user code
+    if isinstance(part, ast.Expr) and isinstance(part.value, ast.Call) and isinstance(part.value.func, ast.Attribute) \
+            and part.value.func.attr == "append" and isinstance(part.value.func.value, ast.Name) and len(part.value.args) == 1 \
+            and not part.value.keywords and isinstance(part.value.args[0], ast.Tuple) \
+            and all(isinstance(e_, (ast.Name, ast.Constant)) for e_ in part.value.args[0].elts):
+        return False
     for n in ast.walk(part):
         if isinstance(n, (ast.FunctionDef, ast.Lambda)) and n is not part:
             continue
@@ -87,6 +93,102 @@ def fine_may_raise(s, kind):
 
 
 # ---------------------------------------------------------------------------------------------
+def _stack_design(repo, rule, ag, rg, tokval, writes, W):
+    """The saved state kept on a module-level stack L instead of in the token:
+           add_guard:      token = len(L) ... L.append((G, I)) ... return token
+           restore_guard:  while len(L) > token: (.., _ignore_errors) = L.pop()          (or a slice deletion after reading L[token])
+                           guard = L[-1][g] if L else None ; LinComb.ONE = ONE_SAFE if guard is None else guard      (design "current")
+                      or   (guard, _ignore_errors, ..) = the entry popped last                                          (design "previous")
+       In design "current" the entry must hold the guard INSTALLED for the region (the conjunction), because that is what is
+       re-installed when an inner region is left; in design "previous" it must hold the guard read BEFORE it is overwritten.
+       _ignore_errors is always the value read before add_guard updates it.  Returns W when the design was recognised."""
+    if not (isinstance(tokval, ast.Call) and norm(tokval.func) == "len" and len(tokval.args) == 1 and isinstance(tokval.args[0], ast.Name)):
+        return None
+    L = tokval.args[0].id
+    if L not in repo.module(RT).bindings:
+        return None
+    appends = [c for c in ast.walk(ag.node) if isinstance(c, ast.Call) and isinstance(c.func, ast.Attribute) and c.func.attr == "append"
+               and norm(c.func.value) == L and len(c.args) == 1 and isinstance(c.args[0], ast.Tuple)]
+    if not appends:
+        return None
+    from ..loader import precedes
+    param = rg.params[0] if rg.params else None
+    rtxt = norm(rg.node).replace(" ", "")
+    pops = [a for a in ast.walk(rg.node) if isinstance(a, ast.Assign) and isinstance(a.value, ast.Call) and norm(a.value.func) == "%s.pop" % L
+            and isinstance(a.targets[0], (ast.Tuple, ast.List))]
+    loop_ok = any(isinstance(w, ast.While) and norm(w.test).replace(" ", "") in ("len(%s)>%s" % (L, param), "%s<len(%s)" % (param, L))
+                  and any(p_ in ast.walk(w) for p_ in pops) for w in ast.walk(rg.node))
+    if not pops or not loop_ok:
+        rule.undecided(rg.loc(), rg.fq, "stack `%s`" % L, "restore_guard does not unwind the stack with `while len(%s) > %s: .. = %s.pop()`" % (L, param, L))
+        return W
+    popped = {norm(e): i for i, e in enumerate(pops[0].targets[0].elts)}
+    gwrites_r = [(s, v) for s, loc, v in state_writes(rg.node, declared_globals(rg.node)) if loc == "guard"]
+    current = None
+    for s, v in gwrites_r:
+        vt = norm(v).replace(" ", "")
+        import re as _re
+        m = _re.fullmatch(r"%s\[-1\]\[(\d+)\]if%s elseNone".replace(" ", "") % (L, L), vt) or _re.fullmatch(r"%s\[-1\]\[(\d+)\]if%selseNone" % (L, L), vt) \
+            or _re.fullmatch(r"%s\[-1\]\[(\d+)\]iflen\(%s\)(?:>0)?elseNone" % (L, L), vt)
+        if m:
+            current = int(m.group(1))
+    gi_prev = popped.get("guard")
+    if current is None and gi_prev is None:
+        rule.violation(rg.loc(), rg.fq, "guard writes: %s" % [norm(v) for _s, v in gwrites_r], "restore_guard does not re-install the guard "
+                       "from the stack (neither the entry popped last nor the entry that stays on top)", "restore/guard")
+        return W
+    ii = popped.get("_ignore_errors")
+    if ii is None:
+        rule.violation(rg.loc(), rg.fq, "popped into: %s" % sorted(popped), "restore_guard does not restore `_ignore_errors` from the popped entry",
+                       "restore/_ignore_errors")
+    else:
+        rule.ok(rg.loc(pops[0]), rg.fq, "_ignore_errors <- component %d of the entry popped last" % ii)
+    for a in appends:
+        elts = a.args[0].elts
+        stmt = a
+        while not isinstance(stmt, ast.stmt):
+            stmt = stmt._parent if hasattr(stmt, "_parent") else next(p_ for p_ in parents(stmt))
+        gw = [(s, v) for s, loc, v in writes if loc == "guard"]
+        iw = [(s, v) for s, loc, v in writes if loc == "_ignore_errors"]
+        # suppression component: `_ignore_errors` read before add_guard updates it
+        if ii is not None:
+            ok_i = ii < len(elts) and norm(elts[ii]) == "_ignore_errors" and not any(precedes(ag.node, s, stmt) for s, _v in iw)
+            if ok_i:
+                rule.ok(ag.loc(a), ag.fq, "entry[%d] = _ignore_errors, read before it is updated" % ii)
+            else:
+                rule.violation(ag.loc(a), ag.fq, norm(a), "the stack entry does not hold the error-suppression flag as it was before this "
+                               "region was entered", "save/_ignore_errors")
+        gi = current if current is not None else gi_prev
+        if gi >= len(elts):
+            rule.violation(ag.loc(a), ag.fq, norm(a), "the stack entry has no component %d for the guard" % gi, "save/guard")
+            continue
+        ge = norm(elts[gi])
+        after = [s for s, _v in gw if precedes(ag.node, s, stmt)]
+        rhs = {norm(v) for _s, v in gw}
+        if current is not None:
+            good = (ge == "guard" and bool(after)) or (ge in rhs and ge != "guard")
+            why = "design `current`: the entry on top of the stack is re-installed when an inner region is left, so it must hold the guard " \
+                  "installed for this region (the conjunction with the enclosing guard)"
+        else:
+            good = ge == "guard" and not after
+            why = "design `previous`: the popped entry is re-installed, so it must hold the guard as it was before this region"
+        if good:
+            rule.ok(ag.loc(a), ag.fq, "entry[%d] = %s" % (gi, ge), why)
+        else:
+            rule.violation(ag.loc(a), ag.fq, "entry[%d] = %s; guard is written as %s" % (gi, ge, sorted(rhs)),
+                           "the stack records `%s`, which is not the guard that has to be re-installed (%s): after leaving an inner region "
+                           "the enclosing region runs under a guard that is not the conjunction of its conditions" % (ge, why.split(":")[0]),
+                           "save/guard")
+    ones = [(s, v) for s, loc, v in state_writes(rg.node, declared_globals(rg.node)) if loc == "LinComb.ONE"]
+    if "LinComb.ONE" in W:
+        if any(norm(v).replace(" ", "") in ("LinComb.ONE_SAFEifguardisNoneelseguard", "guardifguardisnotNoneelseLinComb.ONE_SAFE") for _s, v in ones) \
+                or "LinComb.ONE" in popped:
+            rule.ok(rg.loc(ones[0][0]) if ones else rg.loc(), rg.fq, "LinComb.ONE follows the re-installed guard")
+        else:
+            rule.violation(rg.loc(), rg.fq, "LinComb.ONE writes: %s" % [norm(v) for _s, v in ones], "restore_guard does not restore `LinComb.ONE`",
+                           "restore/LinComb.ONE")
+    return W
+
+
 def rule_symmetry(repo, rule):
     ag = repo.fn(RT, "add_guard")
     rg = repo.fn(RT, "restore_guard")
@@ -114,6 +216,10 @@ def rule_symmetry(repo, rule):
         defs = [n for n in ast.walk(ag.node) if isinstance(n, ast.Assign) and len(n.targets) == 1 and norm(n.targets[0]) == tokval.id]
         if len(defs) == 1:
             tokstmt, tokval = defs[0], defs[0].value
+    if len(ret) == 1 and not isinstance(tokval, ast.Tuple):
+        st = _stack_design(repo, rule, ag, rg, tokval, writes, W)
+        if st is not None:
+            return st
     if len(ret) != 1 or not isinstance(tokval, ast.Tuple):
         rule.undecided(ag.loc(), ag.fq, norm(ret), "token is not a single literal tuple")
         return None
